@@ -84,6 +84,11 @@ def _get_ast_node_variables(node: ast.AST, aliases: Mapping) -> list[Variable]:
             todo.extend(ast.iter_child_nodes(node))
             continue
         name = _get_ast_node_name(node)
+        if name is None:
+            # Not a (dotted) name, e.g. `(a + b).abs()` or `f(a)(b)`: the
+            # variables are those of its parts.
+            todo.extend(ast.iter_child_nodes(node))
+            continue
         name = aliases.get(name, name)
         if isinstance(node, ast.Call):
             variables.append(Variable(name, roles=["callable"]))
@@ -95,14 +100,18 @@ def _get_ast_node_variables(node: ast.AST, aliases: Mapping) -> list[Variable]:
     return variables
 
 
-def _get_ast_node_name(node: ast.AST) -> str:
+def _get_ast_node_name(node: ast.AST) -> Optional[str]:
+    """
+    The (dotted) name that `node` refers to or calls, or `None` if it is not
+    rooted in a plain name (e.g. `(a + b).abs()` or `f(a)(b)`).
+    """
     if isinstance(node, ast.Name):
         return node.id
     if isinstance(node, ast.Call):
+        if isinstance(node.func, ast.Call):
+            return None
         return _get_ast_node_name(node.func)
     if isinstance(node, ast.Attribute):
-        return f"{_get_ast_node_name(node.value)}.{node.attr}"
-    raise ValueError(  # pragma: no cover
-        f"Unknown AST node type during variable extraction: {type(node)}. "
-        "Please report this!"
-    )
+        base = None if isinstance(node.value, ast.Call) else _get_ast_node_name(node.value)
+        return None if base is None else f"{base}.{node.attr}"
+    return None
